@@ -130,6 +130,73 @@ def core_program(rng, size=None, feats=None):
     return "".join(out)
 
 
+# ---- controllers, bends, RPN/NRPN (pipeline model, step 1) and later extensions --------------------------------
+CC_NAMES = ["M", "Modulation", "PT", "PortamentoTime", "V", "MainVolume", "P", "Panpot", "EP", "Expression", "PS",
+            "PortamentoSwitch", "REV", "Reverb", "CHO", "Chorus", "VAR", "Variation"]
+RPN_NAMES = ["PitchBendSensitivity", "BEND_RANGE", "BendRange", "BR", "FineTune", "CoarseTune", "VibratoRate", "VibratoDepth",
+             "VibratoDelay", "FilterCutoff", "FilterResonance", "EGAttack", "EGDecay", "EGRelease"]
+CC_VALUES = ["0", "1", "63", "64", "100", "127", "128", "200", "-1", "-5", "$7F", "$40", "0x10", "!4", "!8.", "8191", "16383"]
+BEND_VALUES = ["0", "64", "127", "1", "63", "65", "-1", "128", "8191", "-8192", "8192", "100", "-100", "$40", "16383", "-20000"]
+
+
+def cc_value(rng):
+    return rng.choice(CC_VALUES)
+
+
+def ctrl_cmd(rng):
+    """one controller / bend / RPN command, mostly well-formed, with the spellings the readers accept"""
+    k = rng.random()
+    sp = rng.choice(["", "", "", " "])
+    if k < 0.22:
+        no = rng.choice(["1", "7", "10", "11", "64", "91", "0", "127", "128", "$5B", ""])
+        v = cc_value(rng)
+        return "y" + sp + no + rng.choice([",", ",", ", ", " ,", " , "]) + v + rng.choice([" ", ";", "", "\n"])
+    if k < 0.34:
+        name = rng.choice(["CC", "ControlChange", "CONTROL_CHANGE", "PlayFrom.CtrlChg"])
+        no = rng.choice(["1", "7", "10", "11", "64", "91", "0", "127", "200"])
+        return name + rng.choice(["(%s,%s)", "(%s, %s)", "( %s ,%s )", "(%s,%s", "%s,%s", "(%s %s)", "(%s,%.0s)"]) % (no, cc_value(rng))
+    if k < 0.62:
+        name = rng.choice(CC_NAMES)
+        v = cc_value(rng)
+        return name + rng.choice(["(%s)", "(%s)", "=%s;", "%s ", " (%s)", "( %s )", "(%s", "(%s)", "(%s)", "(%s,1)", "(){0}", "=(%s)"]).replace("{0}", "%.0s") % v
+    if k < 0.74:
+        v = rng.choice(BEND_VALUES)
+        return "p" + rng.choice(["(%s)", "%s ", "=%s;", " %s ", "( %s )", "(%s"]) % v
+    if k < 0.84:
+        v = rng.choice(BEND_VALUES)
+        return rng.choice(["PB", "PitchBend"]) + rng.choice(["(%s)", "=%s;", "%s ", " (%s)", "(%s"]) % v
+    if k < 0.93:
+        return rng.choice(RPN_NAMES) + rng.choice(["(%s)", "(%s)", " (%s)", "=%s ", "(%s", "(%s)", "(%s)", "(%s,2)", "()%.0s"]) % cc_value(rng)
+    if k < 0.97:
+        n = rng.choice([3, 3, 3, 2, 4, 1])
+        return rng.choice(["RPN", "NRPN"]) + rng.choice(["(%s)", "=%s;", " (%s)"]) % ",".join(cc_value(rng) for _ in range(n))
+    return rng.choice(["Voice", "VOICE"]) + rng.choice(["(%s)", "=%s;"]) % ",".join(rng.choice(["1", "5", "128", "0", "40"]) for _ in range(rng.choice([1, 1, 2, 3])))
+
+
+def ext_item(rng, feats):
+    k = rng.random()
+    if k < 0.45:
+        return ctrl_cmd(rng)
+    return item(rng, feats.get("depth", 2), feats)
+
+
+def ext_program(rng, size=None, feats=None):
+    """core programs interleaved with the commands the extended pipeline model covers"""
+    feats = feats or {}
+    size = size or rng.choice([3, 6, 10, 20])
+    out = []
+    if rng.random() < 0.2:
+        out.append("TimeBase(%d)\n" % rng.choice([48, 96, 192, 480, 24]))
+    for _ in range(size):
+        r = rng.random()
+        if r < 0.10:
+            out.append(track_cmd(rng))
+        else:
+            out.append(ext_item(rng, feats))
+        out.append(rng.choice(SEPS))
+    return "".join(out)
+
+
 JUNK_ALPHA = list("cdefgabrnlovqt0123456789.^%-+#*,()[]{}':;|<>@$!?&=\"`~\\/ \n\t") + \
     ["TR(", "CH(", "Tempo", "TimeBase", "Sub{", "Div{", "Rhythm{", "INT ", "STR ", "PRINT(", "IF(", "FOR(", "WHILE(",
      "FUNCTION ", "PLAY(", "SysEx$=", "KF", "TIME(", "End", "y", "PB(", ".onNote(", ".onTime(", ".Random", "=", "ド", "レ", "ミ",
